@@ -97,7 +97,7 @@ def document(kind, coords, units, gt, spread, href, focus, shape, chain):
         defs = f'<{tag} id="t"{attrs}><stop offset="0" stop-color="white"/></{tag}><{tag} id="g" xlink:href="#t">{STOPS}</{tag}>'
     elif href == "stops":
         defs = f'<linearGradient id="t" x1="0.5" spreadMethod="repeat">{STOPS}</linearGradient><{tag} id="g" xlink:href="#t"{attrs}{"" if spread != "pad" else " spreadMethod=" + chr(34) + "pad" + chr(34)}/>'
-    elif href in ("chain3", "chain3own"):
+    elif href in ("chain3", "chain3own", "chain3-rev"):
         # three levels, the *grandparent* supplies units / transform / spread (and the stops unless the leaf has its own);
         # templates are defined before their users, as authoring tools emit them
         a2 = ""
@@ -108,7 +108,8 @@ def document(kind, coords, units, gt, spread, href, focus, shape, chain):
                 a2 += key
         leaf_stops = STOPS if href == "chain3own" else ""
         t2_stops = '<stop offset="0" stop-color="white"/><stop offset="1" stop-color="black"/>' if href == "chain3own" else STOPS
-        defs = f'<{tag} id="t2"{a2}>{t2_stops}</{tag}><{tag} id="t1" xlink:href="#t2"/><{tag} id="g" xlink:href="#t1"{own}>{leaf_stops}</{tag}>'
+        parts = [f'<{tag} id="t2"{a2}>{t2_stops}</{tag}>', f'<{tag} id="t1" xlink:href="#t2"/>', f'<{tag} id="g" xlink:href="#t1"{own}>{leaf_stops}</{tag}>']
+        defs = "".join(parts if href != "chain3-rev" else parts[::-1])  # -rev: every template is defined after its user
     else:  # chain of two: g -> t1 (transform/units/spread) -> t2 (stops)
         a1 = ""
         own = attrs
@@ -116,7 +117,8 @@ def document(kind, coords, units, gt, spread, href, focus, shape, chain):
             if key and key in own:
                 own = own.replace(key, "")
                 a1 += key
-        defs = f'<{tag} id="t2">{STOPS}</{tag}><{tag} id="t1" xlink:href="#t2"{a1}/><{tag} id="g" xlink:href="#t1"{own}/>'
+        parts = [f'<{tag} id="t2">{STOPS}</{tag}>', f'<{tag} id="t1" xlink:href="#t2"{a1}/>', f'<{tag} id="g" xlink:href="#t1"{own}/>']
+        defs = "".join(parts if href != "chain-rev" else parts[::-1])
     st, gtrans = CHAINS[chain]
     body = SHAPES[shape].format(t=st)
     extra = '<rect x="2" y="2" width="9" height="7" fill="url(#t)"/>' if href in ("partial", "partial-after") else ""
@@ -208,15 +210,15 @@ def all_cases(tier):
     units = ["objectBoundingBox", "userSpaceOnUse"]
     gts = list(GT)
     if tier == "quick":
-        spreads, hrefs, foci, shapes, chains = ["pad", "reflect"], ["none", "attrs", "chain", "chain3", "chain3own", "partial", "partial-after"], ["none", "fxfy", "fr", "fxpct"], ["rect", "path"], ["none", "translate", "rotscale", "groupmatrix"]
+        spreads, hrefs, foci, shapes, chains = ["pad", "reflect"], ["none", "attrs", "chain", "chain3", "chain3own", "partial", "partial-after", "chain-rev", "chain3-rev"], ["none", "fxfy", "fr", "fxpct"], ["rect", "path"], ["none", "translate", "rotscale", "groupmatrix"]
     else:
-        spreads, hrefs, foci, shapes, chains = ["pad", "reflect", "repeat"], ["none", "attrs", "stops", "chain", "chain3", "chain3own", "partial", "partial-after"], list(FOCUS), list(SHAPES), list(CHAINS)
+        spreads, hrefs, foci, shapes, chains = ["pad", "reflect", "repeat"], ["none", "attrs", "stops", "chain", "chain3", "chain3own", "partial", "partial-after", "chain-rev", "chain3-rev"], list(FOCUS), list(SHAPES), list(CHAINS)
     for kind in kinds:
         fs = foci if kind == "radial" else ["none"]
         for c, u, g, sp, h, f, sh, ch in itertools.product(coords, units, gts, spreads, hrefs, fs, shapes, chains):
-            if tier == "quick" and sp == "reflect" and (h not in ("none", "chain3") or ch == "none"):
+            if tier == "quick" and sp == "reflect" and (h not in ("none", "chain3", "chain-rev") or ch == "none"):
                 continue
-            if tier == "quick" and h in ("chain3", "chain3own") and (c == "percent" or g in ("translate", "matrix")):
+            if tier == "quick" and h in ("chain3", "chain3own", "chain-rev", "chain3-rev") and (c == "percent" or g in ("translate", "matrix")):
                 continue
             if h in ("partial", "partial-after") and (c == "percent" or (tier == "quick" and (g in ("matrix",) or sh == "path"))):
                 continue
